@@ -25,7 +25,7 @@ claim("C07",
       "DESIGN.md section 4, C07")
 claim("C09",
       "exhaustive token sequences x layout variants; rapid trees x parenthesis variants; metamorphic Parse pairs",
-      "Every token sequence up to a stated length and random (also mutated, almost-valid) sequences are compared with whitespace / keyword-case variants: equal acceptance and identical trees. Printed trees (explicit and juxtaposed) are compared with variants carrying redundant parentheses around the whole query, operands of explicit operators, group bodies and field values: the variant must parse to the identical tree. Both default-field modes.",
+      "Every token sequence up to a stated length and random (also mutated, almost-valid) sequences are compared with whitespace / keyword-case variants: equal acceptance and identical trees. Printed trees (explicit and juxtaposed) are compared with variants carrying redundant parentheses around the whole query, operands of explicit operators (including the number written after ~ or ^), group bodies and field values: the variant must parse to the identical tree. Both default-field modes.",
       "Whitespace is only changed at harness token boundaries and only removed where one neighbour is a one-character symbol other than '-'.",
       "DESIGN.md section 4, C09")
 claim("C06",
